@@ -22,11 +22,12 @@ EXPLANATION = (
     "processed exactly once - one invocation of the task function for a well-formed known task, none for the others - and skipped "
     "messages do not disturb the rest."
 )
-ASSUMPTIONS = C04.ASSUMPTIONS + [
+ASSUMPTIONS = [a for a in C04.ASSUMPTIONS if "quiescent" not in a] + [
+    "environment events are injected when the loop is quiescent and, in the preemption cases, at one arbitrary boundary between two loop iterations (M=2,K=4 quick / M=3,K=5 thorough)",
     "a cancelled or never-started fetch takes nothing from the scripted broker (brokers that consume a message and are then cancelled before yielding are outside)",
 ]
 TRUSTED = C04.TRUSTED
-REQUIRED_COVERS = ["malformed", "malformed_raw", "unknown", "valid", "stop_in_flight", "quota", "stream_end", "unlimited"]
+REQUIRED_COVERS = ["mid_chain_event", "malformed", "malformed_raw", "unknown", "valid", "stop_in_flight", "quota", "stream_end", "unlimited"]
 budget = C04.budget
 coverage_extra = C04.coverage_extra
 
@@ -45,6 +46,11 @@ def cases(tier: str) -> List[Any]:
         for k0 in ("valid", "malformed", "unknown", "malformed_raw"):
             for prefix in itertools.product(range(3), repeat=depth):
                 out.append({"M": M, "K": K, "cfg": cfg, "k0": k0, "prefix": list(prefix)})
+    # external events landing between two loop iterations (not only when the loop is idle)
+    for cfg in ("A", "AN", "noneA", "end"):
+        for k0 in ("valid", "malformed_raw"):
+            for first in range(3):
+                out.append({"M": 2 if tier == "quick" else 3, "K": 4 if tier == "quick" else 5, "cfg": cfg, "k0": k0, "prefix": [first], "preempt": 1})
     return out
 
 
@@ -53,11 +59,13 @@ def harness(c: sym.Ctx, case: Dict[str, Any]) -> None:
     kinds = [case["k0"]] + [c.choose(("valid", "unknown", "malformed_raw", "empty"), f"kind{k}") for k in range(1, M)]
     cfg = case["cfg"]
     spec = {"M": M, "kinds": kinds, "outcomes": ["return"] * M, "A": "none" if cfg == "noneA" else "sym", "P": "sym",
-            "N": "sym" if cfg == "AN" else "none", "wtt": None, "K": case["K"], "prefix": case["prefix"], "stream_end": cfg == "end"}
+            "N": "sym" if cfg == "AN" else "none", "wtt": None, "K": case["K"], "prefix": case["prefix"], "stream_end": cfg == "end", "preempt": case.get("preempt", 0)}
     r = _listen.run(c, spec)
     check_exactly_once(c, r, kinds)
     for k in kinds:
         c.cover(k)
+    if any(e[0] == "preempt" for e in r.lab.ev):
+        c.cover("mid_chain_event")
     if cfg == "noneA":
         c.cover("unlimited")
     if cfg == "AN":
